@@ -21,6 +21,7 @@ from ..lib.storeimpl import Impl, BadOp, TRACKED
 from . import c12_sweep as SW
 from . import c12_vec as VEC
 from . import c12_link as LNK
+from . import c12_copy as CPY
 from ..extract import writeorder as _wo
 from ..extract import mutorder as _mo
 from ..extract import linkorder as _lo
@@ -97,6 +98,10 @@ ASSUMPTIONS = [
     "can do: len, iteration, count, membership in collections.abc.Sequence; per entry: plain number, == -1, < 0, "
     "comparable, storable); only validations and the set_attr of the index can raise, every other HDF5 write of "
     "DimensionLink.create_new succeeds; the harness probes the Python object to obtain the abstraction",
+    "CopyWrite: the arguments of a copying call are abstract (name: truth value defined, usable as an h5py key, taken, "
+    "storable as text; flags: bool() defined, value; source of the expected class); h5py's object copy succeeds when the "
+    "name is free in the destination; copying the properties into the freshly copied section (children=False) is not "
+    "refused; the container group opened with create=True stays invisible to readers while it is empty",
 ]
 TRUSTED_EXTRA = ["harness/lib/storeimpl.py + storegen.py (path addressing by iteration, HDF5-level dump with h5py)",
                  "harness/props/c12.py FAULTS table (concrete invalid argument -> stage and error class)",
@@ -112,7 +117,9 @@ TRUSTED_EXTRA = ["harness/lib/storeimpl.py + storegen.py (path addressing by ite
                  "remove_link, DimensionLink.create_new, the DimensionLink.index setter) statement by statement; any "
                  "statement it does not know is a broken tie",
                  "harness/props/c12_link.py probes of the offered index (len / iter / count / isinstance Sequence, per entry "
-                 "isinstance / == -1 / < 0, NumPy's element type of the list)"]
+                 "isinstance / == -1 / < 0, NumPy's element type of the list)",
+                 "harness/extract/copyorder.py renders H5Group.copy and its callers statement by statement (unknown statement = "
+                 "broken tie); harness/props/c12_copy.py probes of name and flags"]
 READY = True
 MANIFEST = {
     "level_text": "Kernel-checked theorems over two Lean models tied to the source. (1) nixio's creating/mutating API "
@@ -144,6 +151,15 @@ MANIFEST = {
                   "capabilities x entries) and every previous state of the descriptor; link_functions_safe evaluates that "
                   "discipline on the generated lists, the five *_refused_unchanged theorems are the instances, "
                   "late_type_check_counterexample / entry_check_counterexample prove the earlier orders wrong. "
+                  "(5) guarded_refused_unchanged is that discipline theorem for EVERY system of guards and writes "
+                  "(Pure/Guarded.lean: writes that refuse only for what a guard could have asked, writes invisible to readers); "
+                  "the copying functions (H5Group.copy inlined into create_data_array / data_frame / tag / multi_tag / block / "
+                  "property with copy_from and the two copy_section, Generated/CopyOrder.lean) are shown to be such a system "
+                  "(copy_sound) whose generated lists obey it (copy_functions_safe), hence copy_refused_unchanged; "
+                  "late_name_check_counterexample proves the order before the repairs wrong. "
+                  "(6) DataSet.append / write_direct / __setitem__ / data_extent: append_refused_unchanged and "
+                  "data_step_refused_unchanged restate, on the definitions C01 compiles from data_set.py, that a raised step "
+                  "leaves extent, elements, element type and filter flag as they were (the roll-back of append). "
                   "Tied to the code by differential execution: random histories with injected invalid calls (HDF5-level "
                   "dump after the refusal compared with the writer model's reached graph, then the same call with a valid "
                   "argument) and random vector assignments (dataset read back with h5py). An implementation-side oracle "
@@ -153,23 +169,22 @@ MANIFEST = {
                   "~180 respellings of its own valid value - the same content as tuple / ndarray / generator / duck-typed "
                   "container / NumPy scalar / enum text / entity id ...; quick tier: a stratified part, thorough: most of it).",
     "level_note": "Trusted: Lean kernel; standard axioms; the correspondence harness with its fault table and element table; "
-                  "the three translators' reading of the statements; h5py/HDF5 link and resize semantics modelled, not "
+                  "the translators' reading of the statements; h5py/HDF5 link and resize semantics modelled, not "
                   "verified; the event classification of mutorder.py is by method name and the 15 mutators listed in "
                   "Props/C12.lean `writesFirst` are exempt from the order theorem (covered by the writer model or the oracle "
-                  "only). Partial: array data and frame contents are leaf nodes - refusals of DataSet.append, "
-                  "write_direct, __setitem__, data_extent, DataFrame writes, dimension setters (labels, unit, label, "
-                  "offset, interval), Property attribute setters, Section item assignment, copy_from "
-                  "creation and File-level deletes have no theorem: they are checked by the oracle (catalogue + spelling "
+                  "only). Partial: frame contents are leaf nodes - refusals of DataFrame writes, dimension setters (labels, unit, label, "
+                  "offset, interval), Property attribute setters, Section item assignment "
+                  "and File-level deletes have no theorem: they are checked by the oracle (catalogue + spelling "
                   "sweep) on the implementation only. Tag.units / MultiTag.units / SetDimension.labels: only their common "
                   "write_data call with a text dtype has a theorem (write_data_text_refused_unchanged), their own validation "
-                  "loops are not modelled; ticks_refused_unchanged assumes that a linked dimension holds no ticks dataset. create_multi_tag with positions/extents given as data has its own full theorem "
+                  "loops are not modelled; the copy model stops at the destination container (the copied subtree is one item); ticks_refused_unchanged assumes that a linked dimension holds no ticks dataset. create_multi_tag with positions/extents given as data has its own full theorem "
                   "(multi_tag_refused_unchanged, under C03's invariant WF and the assumption that '<name>-positions' / "
                   "'<name>-extents' are not ids of the supply). name_still_available is proved for "
                   "create_group/source/data_array/tag (not for multi tags).",
     "technique": "Lean 4 proof (writer semantics of the structural model: per-operation case analysis and invariants over "
                  "all graphs / histories; a step-list machine for the vector setters with induction over validation "
                  "prefixes; a guard-discipline theorem by induction over step lists for the dimension links) with differential "
-                 "correspondence checking against nixio, three ast-based translators, and an "
+                 "correspondence checking against nixio, four ast-based translators (+ C01's compiler of data_set.py), and an "
                  "implementation-side property oracle (snapshot around refused calls: catalogue, histories, spelling sweep)",
 }
 
@@ -810,8 +825,35 @@ def correspondence(ctx):
     finally:
         lscene.close()
     total += n_link
+    # the copying functions: model (step lists rendered from the source, H5Group.copy inlined) vs. implementation
+    n_copy = ctx.budget(1500, 12000)
+    crng = random.Random("%s/copy/%d" % (PROP, ctx.seed))
+    ccases = [CPY.gen_case(crng) for _ in range(n_copy)]
+    cscene = CPY.Scene(ctx.tmpfile("c12-copy.nix"))
+    cdist = {"refused": 0, "accepted": 0}
+    try:
+        cmodel = core.run_driver(PROP, [cscene.model_op(c) for c in ccases])
+        with ticking_clock():
+            for c, m in zip(ccases, cmodel):
+                i = cscene.run(c)
+                cdist["refused" if i["refused"] else "accepted"] += 1
+                cdist[c["fn"]] = cdist.get(c["fn"], 0) + 1
+                seen.add(core.canon(["copy", c]))
+                if CPY.canon_model(m) != CPY.canon_impl(i):
+                    disagreements.append(Disagreement({"copy_case": c, "abstraction": cscene.abstract(c)}, CPY.canon_model(m),
+                                                      dict(CPY.canon_impl(i), error=i["error"])))
+    finally:
+        cscene.close()
+    total += n_copy
     return {"evaluations": total, "distinct_nontrivial": len(seen),
-            "rule": "(0) dimension links: link_data_array / link_data_frame on a set or range dimension (holding labels / "
+            "rule": "(00) copies: create_data_array / create_tag / create_block / create_property with copy_from, "
+                    "File.copy_section, Section.copy_section with the name as one of 19 values (text, empty, None, taken, "
+                    "numpy.str_, str subclass, text with NUL / lone surrogate, bytes, numbers, lists, arrays, objects), the "
+                    "keep-id and children flags as one of 12 values (bool, int, None, text, NumPy bool, arrays with 0 / 1 / 2 "
+                    "elements), the source of the right or a wrong kind: refused or accepted, members of the destination "
+                    "container read with h5py, name attribute written, id fresh or kept, properties copied - against "
+                    "Pure/CopyWrite.lean run on the step lists of Generated/CopyOrder.lean. "
+                    "(0) dimension links: link_data_array / link_data_frame on a set or range dimension (holding labels / "
                     "ticks or not, linked or not) and append_range_dimension_using_self, the index spelled as one of 24 "
                     "containers (list, tuple, ndarray, deque, array.array, Sequence class, duck-typed class, generator, set, "
                     "dict keys, bytes, str, range, None, scalars, 0-d array ...) over 34 kinds of entries (Python / NumPy "
@@ -837,7 +879,7 @@ def correspondence(ctx):
                     "op (canonical JSON) whose result is an error or a non-empty value",
             "samples": samples,
             "distribution": {"ops": dist, "impl_errors": errs, "injected": inj, "refused_mutating_calls": refused_mut,
-                             "vector_cases": vdist, "link_cases": ldist},
+                             "vector_cases": vdist, "link_cases": ldist, "copy_cases": cdist},
             "disagreements": disagreements, "exhaustive": False}
 
 
